@@ -105,6 +105,8 @@ fn table(name: &str) -> (String, Vec<(String, Vec<(String, String)>)>) {
         "default-absent" => ("xx_YY".into(), vec![tb("en"), tb("de")]),
         "default-de" => ("de".into(), vec![tb("en"), tb("de"), tb("fr")]),
         "exact-default" => ("en_US".into(), vec![tb("en_US"), tb("en"), tb("fr_FR")]),
+        "full-names" => ("en_us".into(), vec![tb("en_us"), tb("de_de"), tb("fr")]),
+        "mixed" => ("pt_br".into(), vec![tb("pt_br"), tb("pt"), tb("en")]),
         "plain-text" => ("en".into(), vec![("en".into(), vec![("disconnect_no_target".into(), "No server, sorry".into())]), ("de".into(), vec![("disconnect_no_target".into(), "Kein Server".into())])]),
         other => common::machinery(&format!("table {other}")),
     }
@@ -297,8 +299,8 @@ fn specs(thorough: bool) -> Vec<Spec> {
         }
     }
     let long = "l".repeat(64);
-    let locales = ["en_us", "de_de", "de_at", "de_AT", "de", "fr_FR", "xx_yy", "", "_", "de_", "a_b_c", "de_de_x", "DE_de", long.as_str()];
-    let tables = ["en+de+de_at", "de_de-only", "none", "default-absent", "default-de", "exact-default", "plain-text"];
+    let locales = ["en_us", "en_gb", "en", "de_de", "de_at", "de_AT", "de", "fr_FR", "fr_ca", "pt_pt", "pt", "xx_yy", "", "_", "de_", "a_b_c", "de_de_x", "DE_de", long.as_str()];
+    let tables = ["en+de+de_at", "de_de-only", "none", "default-absent", "default-de", "exact-default", "full-names", "mixed", "plain-text"];
     for l in locales {
         for tb in tables {
             for (d, st) in [("v4", "none"), ("empty", "pick-0")] {
@@ -357,7 +359,7 @@ pub fn run(cli: Cli) -> ! {
     rep.set("evaluations", json!(all.len()));
     rep.set("distinct_nontrivial", json!(d));
     rep.set("exhaustive", json!(true));
-    rep.set("rule", json!("full product discovery(8) x filter(7) x strategy(6) x adapter latencies, plus client locale(14) x localisation table(7) on both no-target paths; distinct_nontrivial = distinct (clientbound trace without keep-alives, result)"));
+    rep.set("rule", json!("full product discovery(8) x filter(7) x strategy(6) x adapter latencies, plus client locale(19) x localisation table(9) on both no-target paths; distinct_nontrivial = distinct (clientbound trace without keep-alives, result)"));
     rep.sample(json!({"spec": all[0]}));
     rep.sample(json!({"spec": Spec { disc: "v4+v6".into(), filter: "reverse".into(), strat: "pick-0".into(), locale: "de_de".into(), table: "en+de+de_at".into(), lat: [0, 0, 0] }, "expect": "Transfer to 2001:db8::1 port 65535"}));
     rep.sample(json!({"spec": Spec { disc: "v4".into(), filter: "identity".into(), strat: "none".into(), locale: "de_AT".into(), table: "en+de+de_at".into(), lat: [0, 0, 0] }, "expect": "Disconnect with the 'de' message (de_AT -> de)"}));
